@@ -278,6 +278,55 @@ theorem C32_padding_zero (L : Laws K) (fmul : Dy → Dy → Dy) (r : Request K) 
       · rw [hpe]; simp only [applyPD, applyPhase, Laws.mul_zero L, L.zero_mul]
   exact hval r.kind hkind
 
+/-! ### 5b. The count in ℚ with Mathlib's `round` -/
+
+/-- the count, stated with Mathlib's `round` on ℚ: for an accepted duration the number of samples is
+`round (duration · rate)` -/
+theorem C32_count_rat (d r : Dy) (k : Nat) (h : resolveCount Dy.mul d r = .ok k) :
+    (k : ℤ) = round (((d.m : ℚ) / 2 ^ d.s) * ((r.m : ℚ) / 2 ^ r.s)) := by
+  have hs := C32_count_exact d r
+  rw [h] at hs
+  obtain ⟨n, hr, hk, _, _⟩ := hs
+  subst hk
+  unfold IsRoundHA at hr
+  obtain ⟨h1, h2⟩ := hr
+  simp only [Dy.mul, Dy.den] at h1 h2
+  have hp : (0 : ℤ) < ((2 ^ (d.s + r.s) : ℕ) : ℤ) := by positivity
+  generalize hP : ((2 ^ (d.s + r.s) : ℕ) : ℤ) = P at *
+  generalize hM : d.m * r.m = M at *
+  -- integer facts
+  have hA : 2 * (k : ℤ) * P ≤ 2 * M + P := by
+    have : (k : ℤ) * P * 2 - M * 2 ≤ P := by
+      have := h1
+      omega
+    nlinarith
+  have hB : 2 * M + P < 2 * (k : ℤ) * P + 2 * P := by
+    have hk0 : (0 : ℤ) ≤ (k : ℤ) * P := by positivity
+    have : 2 * (M - (k : ℤ) * P) < P := by
+      rcases Nat.lt_or_ge (2 * (M - (k : ℤ) * P).natAbs) (2 ^ (d.s + r.s)) with hlt | hge
+      · omega
+      · have heq : 2 * (M - (k : ℤ) * P).natAbs = 2 ^ (d.s + r.s) := by omega
+        have := h2 heq
+        omega
+    nlinarith
+  -- the rational value
+  have hx : ((d.m : ℚ) / 2 ^ d.s) * ((r.m : ℚ) / 2 ^ r.s) = (M : ℚ) / (P : ℚ) := by
+    rw [← hM, ← hP]
+    push_cast
+    rw [pow_add]
+    field_simp
+  rw [hx, round_eq]
+  symm
+  rw [Int.floor_eq_iff]
+  have hPq : (0 : ℚ) < (P : ℚ) := by exact_mod_cast hp
+  have hA' : 2 * ((k : ℤ) : ℚ) * (P : ℚ) ≤ 2 * (M : ℚ) + (P : ℚ) := by exact_mod_cast hA
+  have hB' : 2 * (M : ℚ) + (P : ℚ) < 2 * ((k : ℤ) : ℚ) * (P : ℚ) + 2 * (P : ℚ) := by exact_mod_cast hB
+  constructor
+  · rw [div_add_div _ _ (ne_of_gt hPq) two_ne_zero, le_div_iff₀ (by positivity)]
+    linarith
+  · rw [div_add_div _ _ (ne_of_gt hPq) two_ne_zero, div_lt_iff₀ (by positivity)]
+    linarith
+
 /-! ### 6. Non-vacuity: the laws are satisfiable, the hypotheses are met by concrete requests -/
 
 /-- ℂ with `turn x = exp(2πi·x)`: the intended reading of the scalar operations -/
